@@ -284,7 +284,7 @@ def R3_dense_index(ctx):
             f = dict(rt[1][1][3])
             oke = f.get("index") == ("field", ("arg", 2), "0") and f.get("v") == ("field", ("field", ("arg", 2), "1"), "1") and rt[1][0] == ("field", ("field", ("arg", 2), "1"), "0")
     nrt = nosite(deep_strip(Terms(nb).return_term()))
-    en = [x for x in calls_in(nrt) if x[1].endswith("Iterator::enumerate")]
+    en = [x for x in calls_in(nrt) if itm(x[1], "enumerate")]
     ctx.check(oke and len(en) == 1, "new:enumerate", "new() does not index the entries with their enumerate() position", nb.where(), detail="(i,(k,v)) -> (k, {v, index:i})")
     # get_pair: find index == index
     gp = F.need(MAP + "get_pair")
@@ -292,7 +292,7 @@ def R3_dense_index(ctx):
     okg = len(rows) == 1
     if okg:
         t = rows[0].ret
-        finds = [x for x in calls_in(t) if x[1].endswith("Iterator::find")]
+        finds = [x for x in calls_in(t) if itm(x[1], "find")]
         okg = len(finds) == 1 and finds[0][2][1][0] == "closure"
         if okg:
             fc = F.need(finds[0][2][1][1])
@@ -346,9 +346,9 @@ def R4_state_model(ctx):
     ctx.rule("C11.R4", "StateModel: initial_state maps over self.0.iter() one value per feature (get_initial); indexed_iter = iter().enumerate(); extend re-inserts existing entries first, then the new ones, Err on a conflicting overwrite; new = CompactOrderedHashMap::new; custom formats decode only their own variant", floor=9)
     b = F.need(SM + "::initial_state")
     rt = nosite(deep_strip(Terms(b).return_term()))
-    maps = [x for x in calls_in(rt) if x[1].endswith("Iterator::map")]
+    maps = [x for x in calls_in(rt) if itm(x[1], "map")]
     ok = len(maps) == 1 and maps[0][2][0] == ("call", MAP + "iter", (("field", SELF, "0"),)) and any("Iterator::collect" in x[1] for x in calls_in(rt))
-    trunc = [x[1] for x in calls_in(rt) if re.search(r"Iterator::(take|skip|filter|filter_map|step_by|rev)$", x[1])]
+    trunc = [x[1] for x in calls_in(rt) if re.search(r"Iterator>?::(take|skip|filter|filter_map|step_by|rev)$", x[1])]
     ctx.check(ok and not trunc, "initial_state:all-features-in-index-order", "initial_state is not a map over self.0.iter() (index order) collected: %s" % short(rt)[:160], b.where(), detail="self.0.iter().map(get_initial).collect()")
     if ok:
         cb = F.need(maps[0][2][1][1])
@@ -360,7 +360,7 @@ def R4_state_model(ctx):
     ctx.check(irt == ("call", "std::iter::Iterator::enumerate", (("call", MAP + "iter", (SELF,)),)), "indexed_iter", "indexed_iter is not iter().enumerate(): %s" % short(irt), ib.where(), detail="iter().enumerate()")
     tv = F.need(MAP + "to_vec")
     trt = nosite(deep_strip(Terms(tv).return_term()))
-    ctx.check(bool([x for x in calls_in(trt) if x[1].endswith("Iterator::enumerate") and x[2][0] == ("call", MAP + "iter", (SELF,))]), "to_vec", "to_vec does not enumerate iter()", tv.where())
+    ctx.check(bool([x for x in calls_in(trt) if itm(x[1], "enumerate") and x[2][0] == ("call", MAP + "iter", (SELF,))]), "to_vec", "to_vec does not enumerate iter()", tv.where())
     for fn in ("indexed_iter", "iter", "len", "to_vec"):
         sb = F.need(SM + "::" + fn)
         srt = nosite(deep_strip(Terms(sb).return_term()))
@@ -375,7 +375,7 @@ def R4_state_model(ctx):
     okx = len(colls) == 1
     if okx:
         src = nosite(deep_strip(etm.operand(colls[0].args[0], colls[0].bb)))
-        okx = bool([x for x in calls_in(src) if x[1] == MAP + "iter" and x[2] == (("field", SELF, "0"),)]) and not [x for x in calls_in(src) if re.search(r"Iterator::(take|skip|filter|rev|step_by)$", x[1])]
+        okx = bool([x for x in calls_in(src) if x[1] == MAP + "iter" and x[2] == (("field", SELF, "0"),)]) and not [x for x in calls_in(src) if re.search(r"Iterator>?::(take|skip|filter|rev|step_by)$", x[1])]
     ctx.check(okx, "extend:existing-first", "extend does not start from all existing entries in index order", eb.where(), detail="self.0.iter().collect::<CompactOrderedHashMap>()")
     ecl = [F.bodies[p] for p in F.bodies if p.startswith(eb.path + "::{closure")]
     ins = [(cb, c) for cb in ecl for c in cb.calls() if c.callee == MAP + "insert"]
